@@ -508,11 +508,15 @@ class RecipeGen:
             return ["itxn", self.expr(sc, "u", d + 1)]
         if k == "if":
             then = self.block(sc, d + 1)
-            els = self.block(sc, d + 1) if r.random() < 0.5 else None
+            x = r.random()
+            els = self.block(sc, d + 1) if x < 0.4 else (then if x < 0.55 else None)  # else == then: equal ops, distinct blocks
             return ["if", self.expr(sc, "u", d + 1), then, els]
         if k == "cond":
             n = r.randrange(1, 4)
-            return ["cond", [[self.expr(sc, "u", d + 1), self.block(sc, d + 1)] for _ in range(n)]]
+            arms = [[self.expr(sc, "u", d + 1), self.block(sc, d + 1)] for _ in range(n)]
+            if r.random() < 0.3:
+                arms.append([self.expr(sc, "u", d + 1), arms[0][1]])
+            return ["cond", arms]
         if k == "while":
             sc.loop += 1
             b = self.block(sc, d + 1)
@@ -1070,7 +1074,7 @@ def gen_plan(seed: int, cfg: dict) -> dict:
                     pos_candidates = [i for i in range(len(pops) + 1) if sum(1 for o in pops[:i] if o["op"] == "build") >= ndef]
                     pos = r.choice(pos_candidates)
                     pops.insert(pos, {"op": "probe", "p": pid, "k": r.choice(faulty if faulty and r.random() < 0.7 else subs_probe), "what": r.choice(["type_of", "has_return"])})
-            ncomp = r.choice([1, 1, 2, 3])
+            ncomp = r.choice([1, 2, 2, 3, 4])
             for _ in range(ncomp):
                 pops.append(_compile_op(r, spec, enabled, sm_run))
             if r.random() < 0.3:
@@ -1115,6 +1119,11 @@ def gen_plan(seed: int, cfg: dict) -> dict:
             n = r.choice([3, 17, 100, 300, 1000, 4000]) if what in ("slots", "vars") else r.choice([2, 9, 40, 120])
             merged.insert(r.randrange(0, len(merged) + 1), {"op": "churn", "what": what, "n": n})
 
+    # unrelated test code in the process: the public comparison contexts, sometimes with a failure inside
+    if r.random() < (0.25 if enabled else 0.08):
+        for _ in range(r.randrange(1, 3)):
+            merged.insert(r.randrange(0, len(merged) + 1), {"op": "testctx", "which": r.choice(["expr", "slot", "both"]), "inner": r.choice(["ok", "raise", "assert"]) if enabled else "ok"})
+
     # source-map gate phases
     if sm_run:
         # usually on from the start; sometimes switched on only after some programs were built
@@ -1149,7 +1158,12 @@ def gen_plan(seed: int, cfg: dict) -> dict:
             if merged[i].get("fault"):
                 continue
             merged[i] = dict(merged[i])
-            merged[i]["fault"] = {"kind": "abort", "u": r.random(), "bias": r.choice(["uniform", "uniform", "proto", "eval", "router", "smoff", "probe"])}
+            bias = r.choice(["uniform", "uniform", "proto", "eval", "router", "smoff", "probe"])
+            sm_ops = [j for j in compile_idx if merged[j]["op"] == "compile" and merged[j]["opts"].get("sm") and not merged[j].get("fault")]
+            if sm_ops and r.random() < 0.4:
+                i, bias = r.choice(sm_ops), "smoff"
+                merged[i] = dict(merged[i])
+            merged[i]["fault"] = {"kind": "abort", "u": r.random(), "bias": bias}
             placed += 1
         elif k == "reclimit":
             pool = [i for i in compile_idx if merged[i]["op"] == "compile" and not programs[merged[i]["p"]]["target"]]
@@ -1178,7 +1192,11 @@ def gen_plan(seed: int, cfg: dict) -> dict:
         if o["op"] == "gate" and o["feature"] == "sourcemap_enabled":
             gate_on = o["value"]
     for pid in live_targets:
-        tail.append({"op": "compile", "p": pid, "opts": gen_opts(r, programs[pid]), "obs": True})
+        tsm = sm_run and r.random() < 0.5 and not _has_recursive_abi(programs[pid])
+        o = {"op": "compile", "p": pid, "opts": gen_opts(r, programs[pid], allow_sm=tsm), "obs": True}
+        if (o["opts"].get("sm") or {}).get("pcs"):
+            o["algod"] = {"status": "ok", "compile": "ok"}
+        tail.append(o)
     feats2 = dict(feats)
     feats2["abi"] = True
     g = RecipeGen(rr, feats2)
@@ -1192,6 +1210,7 @@ def gen_plan(seed: int, cfg: dict) -> dict:
     if r.random() < 0.5:
         tail.append({"op": "compile", "p": cpid, "opts": gen_opts(r, canary), "obs": True})
     ops = merged + tail
+    _fix_sourcemap_ops(ops, programs)
     return {
         "seed": seed,
         "features": feats,
